@@ -1,13 +1,282 @@
-/- Line-protocol driver for M-Compile (stub until the model lands). Core-only. -/
+/-
+Line-protocol driver for M-Compile. One operation per input line, one answer per output
+line. Core-only (built as `lean_exe compiledrv`).
+
+ops
+  C <pre> <fuel> <orders> <program>   stateful linker: `compile.Compile` (pre=0) or
+                                      `compile.CompileWithLinkOrder` (pre=1) with the given visit orders
+                                      -> ok <dump> | err | diverges
+  S <program>                         declarative spec (meaningful when compilation succeeds)
+                                      -> ok <dump> | err
+  G <fuel> <orders> <program>         compile, then the generator's service recursion
+                                      -> ok | err | diverges | gen-diverges
+
+program ::= "P" strict(0|1) nfiles file^nfiles
+file    ::= "X"                                  (does not parse)
+          | "F" ninc inc^ninc ndef def^ndef
+inc     ::= as(0|1) basename target(index | "-")
+def     ::= "T" name type | "E" name n (item value|"-")^n | "S" kind(s|u|x) name n field^n
+          | "C" name type cval | "V" name parent|"-" n func^n
+field   ::= id|"-" name req(r|o|d) type ("-" | "=" cval)
+func    ::= name oneway(0|1) n field^n ret(type | "void") n field^n
+type    ::= bool|i8|i16|i32|i64|double|string|binary | "L" type | "Z" type | "M" type type | "R" name
+cval    ::= "i" int | "d" hexbits | "b" 0|1 | "s" hex|"-" | "l" n cval^n | "m" n (cval cval)^n | "r" name
+orders  ::= "O" nmods mod^nmods
+mod     ::= names names names names nf (svc names)^nf        (includes types consts services funcs)
+names   ::= n name^n
+-/
+import ThriftVerif.Compile.Dump
+
+open ThriftVerif.Compile
+
+/-- parser state: remaining tokens, next type-occurrence id -/
+abbrev P := StateT (List String × Nat) Option
+
+def tok : P String := do
+  let (ts, n) ← get
+  match ts with
+  | [] => failure
+  | t :: rest => set (rest, n); pure t
+
+def freshOcc : P Nat := do
+  let (ts, n) ← get
+  set (ts, n + 1)
+  pure n
+
+def pNat : P Nat := do
+  let t ← tok
+  match t.toNat? with
+  | some n => pure n
+  | none => failure
+
+def pInt : P Int := do
+  let t ← tok
+  match t.toInt? with
+  | some n => pure n
+  | none => failure
+
+def pName : P Name := do
+  let t ← tok
+  pure (ofStr t)
+
+def pBool : P Bool := do
+  let t ← tok
+  if t = "1" then pure true else if t = "0" then pure false else failure
+
+def hexValC (c : Char) : Option Nat :=
+  if '0' ≤ c ∧ c ≤ '9' then some (c.toNat - 48)
+  else if 'a' ≤ c ∧ c ≤ 'f' then some (c.toNat - 87)
+  else none
+
+def bytesOfHexC : List Char → Option (List Nat)
+  | [] => some []
+  | [_] => none
+  | a :: b :: rest =>
+    match hexValC a, hexValC b, bytesOfHexC rest with
+    | some x, some y, some r => some ((x * 16 + y) :: r)
+    | _, _, _ => none
+
+def natOfHexC (cs : List Char) : Option Nat :=
+  cs.foldlM (fun acc c => (hexValC c).map (fun d => acc * 16 + d)) 0
+
+def rep {α : Type} (p : P α) : Nat → P (List α)
+  | 0 => pure []
+  | n + 1 => do
+    let x ← p
+    let xs ← rep p n
+    pure (x :: xs)
+
+def counted {α : Type} (p : P α) : P (List α) := do
+  let n ← pNat
+  rep p n
+
+partial def pType : P TExpr := do
+  let t ← tok
+  match t with
+  | "bool" => return .base (← freshOcc) .bool
+  | "i8" => return .base (← freshOcc) .i8
+  | "i16" => return .base (← freshOcc) .i16
+  | "i32" => return .base (← freshOcc) .i32
+  | "i64" => return .base (← freshOcc) .i64
+  | "double" => return .base (← freshOcc) .double
+  | "string" => return .base (← freshOcc) .string
+  | "binary" => return .base (← freshOcc) .binary
+  | "L" => do let o ← freshOcc; let e ← pType; return .list o e
+  | "Z" => do let o ← freshOcc; let e ← pType; return .set o e
+  | "M" => do let o ← freshOcc; let k ← pType; let v ← pType; return .map o k v
+  | "R" => do let n ← pName; return .ref n
+  | _ => failure
+
+partial def pCV : P CV := do
+  let t ← tok
+  match t with
+  | "i" => return .int (← pInt)
+  | "d" => do
+    let h ← tok
+    match natOfHexC h.toList with
+    | some b => return .dbl b
+    | none => failure
+  | "b" => return .bool (← pBool)
+  | "s" => do
+    let h ← tok
+    if h = "-" then return .str [] else
+    match bytesOfHexC h.toList with
+    | some b => return .str b
+    | none => failure
+  | "l" => do
+    let n ← pNat
+    let xs ← rep pCV n
+    return .list xs
+  | "m" => do
+    let n ← pNat
+    let kvs ← rep (do let k ← pCV; let v ← pCV; pure (k, v)) n
+    return .map kvs
+  | "r" => return .uref (← pName)
+  | _ => failure
+
+def pField : P Field := do
+  let idt ← tok
+  let id ← (if idt = "-" then pure none else match idt.toInt? with
+    | some n => pure (some n)
+    | none => failure : P (Option Int))
+  let name ← pName
+  let rt ← tok
+  let req ← (match rt with
+    | "r" => pure Req.required
+    | "o" => pure Req.optional
+    | "d" => pure Req.unspecified
+    | _ => failure : P Req)
+  let ty ← pType
+  let dt ← tok
+  let dflt ← (if dt = "-" then pure none else if dt = "=" then (do let v ← pCV; pure (some v)) else failure : P (Option CV))
+  pure ⟨id, name, req, ty, dflt⟩
+
+def pFunc : P Func := do
+  let name ← pName
+  let oneway ← pBool
+  let args ← counted pField
+  let (ts, _) ← get
+  let ret ← (match ts with
+    | "void" :: _ => do let _ ← tok; pure none
+    | _ => do let t ← pType; pure (some t) : P (Option TExpr))
+  let excs ← counted pField
+  pure ⟨name, oneway, args, ret, excs⟩
+
+def pDef : P Def := do
+  let t ← tok
+  match t with
+  | "T" => do let n ← pName; let ty ← pType; return .typedef n ty
+  | "E" => do
+    let n ← pName
+    let items ← counted (do
+      let i ← pName
+      let v ← tok
+      if v = "-" then pure (i, none) else match v.toInt? with
+        | some x => pure (i, some x)
+        | none => failure)
+    return .enum n items
+  | "S" => do
+    let k ← tok
+    let kind ← (match k with
+      | "s" => pure SKind.struct
+      | "u" => pure SKind.union
+      | "x" => pure SKind.exception
+      | _ => failure : P SKind)
+    let n ← pName
+    let fs ← counted pField
+    return .struct kind n fs
+  | "C" => do let n ← pName; let ty ← pType; let v ← pCV; return .const n ty v
+  | "V" => do
+    let n ← pName
+    let pt ← tok
+    let fs ← counted pFunc
+    return .service n (if pt = "-" then none else some (ofStr pt)) fs
+  | _ => failure
+
+def pInclude : P Include := do
+  let asName ← pBool
+  let name ← pName
+  let t ← tok
+  if t = "-" then pure ⟨asName, name, none⟩ else match t.toNat? with
+    | some n => pure ⟨asName, name, some n⟩
+    | none => failure
+
+def pFile : P File := do
+  let t ← tok
+  match t with
+  | "X" => pure .bad
+  | "F" => do
+    let incs ← counted pInclude
+    let defs ← counted pDef
+    pure (.ok incs defs)
+  | _ => failure
+
+def pProgram : P Program := do
+  let t ← tok
+  if t ≠ "P" then failure
+  let strict ← pBool
+  let files ← counted pFile
+  pure ⟨strict, files⟩
+
+def pNames : P (List Name) := counted pName
+
+def pModOrder : P ModOrder := do
+  let includes ← pNames
+  let types ← pNames
+  let consts ← pNames
+  let services ← pNames
+  let funcs ← counted (do let s ← pName; let ns ← pNames; pure (s, ns))
+  pure ⟨includes, types, consts, services, funcs⟩
+
+def pOrders : P Orders := do
+  let t ← tok
+  if t ≠ "O" then failure
+  counted pModOrder
+
+def runP {α : Type} (p : P α) (toks : List String) : Option α :=
+  match p.run (toks, 0) with
+  | some (a, ([], _)) => some a
+  | _ => none
+
+def step (line : String) : String :=
+  match (line.trimAscii.toString.splitOn " ").filter (· ≠ "") with
+  | "C" :: pre :: fuel :: rest =>
+    match fuel.toNat?, runP (do let o ← pOrders; let pr ← pProgram; pure (o, pr)) rest with
+    | some fuel, some (o, pr) =>
+      match compileWith (pre = "1") fuel o pr with
+      | .ok c => "ok " ++ dumpText c.prog (Acc.ofState c.st)
+      | .err => "err"
+      | .fuel => "diverges"
+    | _, _ => "bad-op"
+  | "S" :: rest =>
+    match runP pProgram rest with
+    | some pr =>
+      match gather pr with
+      | some p => "ok " ++ dumpText p (Acc.ofSpec p)
+      | none => "err"
+    | none => "bad-op"
+  | "G" :: fuel :: rest =>
+    match fuel.toNat?, runP (do let o ← pOrders; let pr ← pProgram; pure (o, pr)) rest with
+    | some fuel, some (o, pr) =>
+      match compileWith false fuel o pr with
+      | .ok c =>
+        match genServices fuel c with
+        | .ok _ => "ok"
+        | .err => "err"
+        | .fuel => "gen-diverges"
+      | .err => "err"
+      | .fuel => "diverges"
+    | _, _ => "bad-op"
+  | _ => "bad-op"
+
+partial def loop (hin hout : IO.FS.Stream) : IO Unit := do
+  let line ← hin.getLine
+  if line.isEmpty then return ()
+  hout.putStrLn (step line)
+  loop hin hout
+
 def main : IO Unit := do
   let hin ← IO.getStdin
   let hout ← IO.getStdout
-  let rec loop : Nat → IO Unit
-    | 0 => pure ()
-    | n + 1 => do
-      let line ← hin.getLine
-      if line.isEmpty then return ()
-      hout.putStrLn "bad-op"
-      loop n
-  loop 1000000000
+  loop hin hout
   hout.flush
